@@ -50,11 +50,23 @@ func genStyle(t *rt.Tape, label string) listStyle {
 	return listStyle(t.Weighted([]int{3, 2, 1}, label))
 }
 
-type docWriter struct{ sb strings.Builder }
+type docWriter struct {
+	sb strings.Builder
+	// commentInFold: a comment line is put between two continuation lines of
+	// every folded value (legal in debian/control: a commented-out list entry
+	// does not end the logical line)
+	commentInFold bool
+}
 
 func (w *docWriter) f(k, v string) {
 	if v == "" {
 		return
+	}
+	if w.commentInFold {
+		if i := strings.Index(v[1:], "\n "); i >= 0 {
+			i++
+			v = v[:i] + "\n# commented-out-entry (>= 1:2.0)," + v[i:]
+		}
 	}
 	if strings.HasPrefix(v, "\n") {
 		w.sb.WriteString(k + ":" + v + "\n")
@@ -408,7 +420,7 @@ func writeDesc(w *docWriter, syn string, lines []string) {
 }
 
 func (c mControlFile) render() string {
-	w := &docWriter{}
+	w := &docWriter{commentInFold: c.Comments}
 	if c.Comments {
 		w.sb.WriteString("# generated\n")
 	}
